@@ -619,6 +619,10 @@ def get_config(args):
         if len(_CONFIG_CACHE) > 512:
             _CONFIG_CACHE.clear()
         _CONFIG_CACHE[key] = cfg
+    # -- reporters accumulate state over runs: every run gets fresh ones
+    with contextlib.redirect_stdout(io.StringIO()):
+        cfg.reporters = []
+        cfg.setup_reporters()
     return cfg
 
 
